@@ -220,13 +220,19 @@ def check_c09(idx: Index, tier: str, res: Result) -> None:
     from ..util import expand_aliases
     gexp = expand_aliases(gen.node)                 # row aliases and named intermediates (df, series) written out
     vals = []
+
+    def alts(v):
+        """the values a store can carry: both sides of a conditional expression"""
+        if isinstance(v, ast.IfExp):
+            return alts(v.body) + alts(v.orelse)
+        return [v]
     for n in walk_no_nested(gexp):
         if isinstance(n, ast.Assign):
             t = n.targets[0]
             if isinstance(t, ast.Subscript) and src(t).replace("'", '"').endswith('["equations"][equation]'):
-                vals.append((n, n.value, "dict/json"))
+                vals += [(n, v_, "dict/json") for v_ in alts(n.value)]
             if isinstance(t, ast.Subscript) and src(t.value) == "plot_df":
-                vals.append((n, n.value, "df"))
+                vals += [(n, v_, "df") for v_ in alts(n.value)]
     if len(vals) < 3:
         raise AnalysisError("__generate_df: expected three result stores (df/dict/json), found %d" % len(vals))
     SERIES = "scenarios[scenario].result[equation]"
